@@ -101,6 +101,7 @@ class SimQueue:
         self.n_got = 0
         self.cancel_join = set()
         self.closed_by = set()
+        self._reader = _ReaderShim(w, self._avail, "q%d" % self.qid)
 
     def __deepcopy__(self, memo):
         return self  # a queue is shared between parent and forked children
@@ -317,6 +318,35 @@ class SimQueue:
 
     def cancel_join_thread(self):
         self.cancel_join.add(self.world.current_proc())
+
+
+class _ReaderShim:
+    """`queue._reader.poll(timeout)` is a common way to wait for data without consuming it"""
+
+    def __init__(self, world, avail, tag):
+        self.world = world
+        self.avail = avail
+        self.tag = tag
+
+    def __deepcopy__(self, memo):
+        return self
+
+    def poll(self, timeout=0.0):
+        ready = self.avail
+        if timeout is None:
+            self.world.seam(Op("reader-poll", self.tag, can_run=ready))
+            return True
+        if timeout <= 0:
+            self.world.seam(Op("reader-poll0", self.tag))
+            return bool(ready())
+        to = self.world.seam(Op("reader-poll", self.tag, can_run=ready, can_timeout=lambda: not ready(), timeout=timeout))
+        return not to and bool(ready())
+
+    def fileno(self):
+        raise SimUnsupported("Connection.fileno")
+
+    def close(self):
+        pass
 
 
 class SimJoinableQueue(SimQueue):
